@@ -357,6 +357,26 @@ CORPUS = [
             '<xsl:template match="/"><o x="{count(/*/namespace::xml)}" all="{count(//namespace::*)}"><xsl:for-each select="//*"><n t="{name()}" c="{count(namespace::*)}">'
             '<xsl:for-each select="namespace::*"><xsl:sort select="name()"/><ns p="{name()}" u="{.}"/></xsl:for-each></n></xsl:for-each></o></xsl:template></xsl:stylesheet>\n',
      "mode": "xml", "cls": "corpus-ns-axis", "probes": ["ns-axis"], "nodom": False},
+    # xsl:output cdata-section-elements (and other lexical choices) must come out byte-identical for every stylesheet form
+    {"xml": '<?xml version="1.0"?>\n<?xml-stylesheet type="text/xsl" href="file://@DIR@/style.xsl"?>\n<a><b>x &lt; y</b><b>]]&gt;</b></a>',
+     "xsl": '<?xml version="1.0"?>\n<xsl:stylesheet version="1.0" xmlns:xsl="http://www.w3.org/1999/XSL/Transform">'
+            '<xsl:output method="xml" cdata-section-elements="c" doctype-public="-//C05//DTD o//EN" doctype-system="o.dtd" standalone="no" '
+            'media-type="text/xml" version="1.0" indent="no" omit-xml-declaration="no" encoding="ISO-8859-1"/>'
+            '<xsl:template match="/"><o><xsl:for-each select="//b"><c>one &lt; two <xsl:value-of select="."/></c><d><xsl:value-of select="."/></d>'
+            '</xsl:for-each></o></xsl:template></xsl:stylesheet>\n',
+     "mode": "bytes", "cls": "corpus-output-lexical", "probes": [], "nodom": False, "out": "cdata-section-elements=c,doctype,standalone"},
+    # white-space-only runs of 1, 63, 64, 65, 200 and 5000 characters under strip-space / preserve-space, epilog comment + PI
+    {"xml": '<?xml version="1.0"?>\n<?xml-stylesheet type="text/xsl" href="file://@DIR@/style.xsl"?>\n<r>' +
+            "".join("<a>\n%s<x/>%s</a><b>\n%s<x/></b>" % (" " * (n - 1), "\t" * n, " " * (n - 1)) for n in (1, 63, 64, 65, 200, 5000)) +
+            '</r>\n<!--after--><?end pi?>',
+     "xsl": '<?xml version="1.0"?>\n<xsl:stylesheet version="1.0" xmlns:xsl="http://www.w3.org/1999/XSL/Transform">'
+            '<xsl:strip-space elements="*"/><xsl:preserve-space elements="b"/>'
+            '<xsl:template match="/"><o l="{name(/node()[last()])}" c="{count(/node())}" fs="{count(/*/following-sibling::node())}" '
+            'pc="{count(/node()[last()]/preceding-sibling::node())}"><xsl:for-each select="//a | //b"><n t="{name()}" c="{count(text())}" '
+            'l="{string-length(text()[1])}" k="{count(node())}"/></xsl:for-each>'
+            '<xsl:for-each select="/comment() | /processing-instruction() | /*"><k t="{name()}"><xsl:number level="any" count="comment()|processing-instruction()|*"/>:'
+            '<xsl:number level="any" count="node()"/></k></xsl:for-each></o></xsl:template></xsl:stylesheet>\n',
+     "mode": "xml", "cls": "corpus-ws-runs", "probes": ["ws-count", "doc-level"], "nodom": False},
     # UTF-16 output (wide writes through XalanOutputStream): ordinary text, then one raw run longer than the 512-unit
     # buffer of the ostream/callback streams but shorter than the 8192-unit buffer of the file streams
     {"xml": '<?xml version="1.0"?>\n<?xml-stylesheet type="text/xsl" href="file://@DIR@/style.xsl"?>\n<a>0123456789abcdefghijklmnopqrstuvwxyzABCDEFGHIJKLMNOPQRSTUVWXYZ-+</a>',
